@@ -237,10 +237,17 @@ use nexosim::ports::QuerySource;
 #[derive(Default)]
 struct GateSet {
     inner: Mutex<Vec<(u32, Vec<Waker>)>>,
+    /// One flag per gate (= per replier task): set for the duration of a poll
+    /// of the gate future; finding it set means two polls of one model overlap.
+    polling: Vec<std::sync::atomic::AtomicBool>,
+    overlaps: std::sync::atomic::AtomicU64,
+    /// Busy-wait iterations inside each poll (widens the poll so that wake-ups
+    /// issued by other workers land while the task is being polled).
+    spin_in_poll: std::sync::atomic::AtomicU64,
 }
 impl GateSet {
     fn new(n: usize) -> Self {
-        GateSet { inner: Mutex::new((0..n).map(|_| (0, Vec::new())).collect()) }
+        GateSet { inner: Mutex::new((0..n).map(|_| (0, Vec::new())).collect()), polling: (0..n).map(|_| std::sync::atomic::AtomicBool::new(false)).collect(), overlaps: Default::default(), spin_in_poll: Default::default() }
     }
     fn open(&self, g: usize) {
         let w = {
@@ -269,15 +276,28 @@ struct GateWait<'a> {
 impl Future for GateWait<'_> {
     type Output = ();
     fn poll(self: Pin<&mut Self>, cx: &mut TaskCx<'_>) -> Poll<()> {
-        let mut i = self.gates.inner.lock().unwrap();
-        if i[self.g].0 >= self.need {
-            Poll::Ready(())
-        } else {
-            // Keep one waker per waiting task (re-polls replace it).
-            i[self.g].1.retain(|w| !w.will_wake(cx.waker()));
-            i[self.g].1.push(cx.waker().clone());
-            Poll::Pending
+        use std::sync::atomic::Ordering::Relaxed;
+        if self.gates.polling[self.g].swap(true, Relaxed) {
+            self.gates.overlaps.fetch_add(1, Relaxed);
         }
+        let r = {
+            let mut i = self.gates.inner.lock().unwrap();
+            if i[self.g].0 >= self.need {
+                Poll::Ready(())
+            } else {
+                // Keep one waker per waiting task (re-polls replace it).
+                i[self.g].1.retain(|w| !w.will_wake(cx.waker()));
+                i[self.g].1.push(cx.waker().clone());
+                Poll::Pending
+            }
+        };
+        // The waker is registered: wake-ups may now arrive while this poll is
+        // still running.
+        for _ in 0..self.gates.spin_in_poll.load(Relaxed) {
+            std::hint::spin_loop();
+        }
+        self.gates.polling[self.g].store(false, Relaxed);
+        r
     }
 }
 
@@ -415,6 +435,8 @@ enum COp {
     Open(usize),
     Spurious(usize),
     Yield,
+    /// Busy-waits for the given number of iterations.
+    Spin(u64),
 }
 struct Conductor {
     gates: Arc<GateSet>,
@@ -430,6 +452,11 @@ impl Conductor {
                     self.spurious_delivered.fetch_add(n as u64, std::sync::atomic::Ordering::Relaxed);
                 }
                 COp::Yield => YieldOnce(false).await,
+                COp::Spin(n) => {
+                    for _ in 0..n {
+                        std::hint::spin_loop();
+                    }
+                }
             }
         }
     }
@@ -467,7 +494,7 @@ struct GStats {
     out_of_connection_order_completions: u64,
 }
 
-fn gates_case(seed: u64, ex: &crate::bench::Exec, ctx: (String, String)) -> Result<GStats, (String, String)> {
+fn gates_case(seed: u64, ex: &crate::bench::Exec, ctx: (String, String), hot: bool) -> Result<GStats, (String, String)> {
     use std::sync::atomic::{AtomicU64, Ordering::Relaxed};
     let mut rng = Rng::new(seed);
     rec::reset(&ex.cfg);
@@ -476,6 +503,9 @@ fn gates_case(seed: u64, ex: &crate::bench::Exec, ctx: (String, String)) -> Resu
     let nrep = rng.range(2, if miri { 3 } else { 6 }) as usize;
     let nask = rng.range(1, if miri { 2 } else { 3 }) as usize;
     let gates = Arc::new(GateSet::new(nrep));
+    if hot && !miri {
+        gates.spin_in_poll.store(*rng.pick(&[200u64, 2000, 10000]), std::sync::atomic::Ordering::Relaxed);
+    }
     let log = Arc::new(Mutex::new(GLog::default()));
     let spur_self = Arc::new(AtomicU64::new(0));
     let spur_gate = Arc::new(AtomicU64::new(0));
@@ -562,6 +592,15 @@ fn gates_case(seed: u64, ex: &crate::bench::Exec, ctx: (String, String)) -> Resu
             for _ in 0..rng.below(3) {
                 full.push(if rng.chance(1, 2) { COp::Yield } else { COp::Spurious(rng.usize(nrep)) });
             }
+            if hot {
+                // Bursts of wake-ups on one replier: the first ones land while it
+                // is being polled, the later ones while it is polled again.
+                let g = rng.usize(nrep);
+                for _ in 0..rng.range(3, 8) {
+                    full.push(COp::Spurious(g));
+                    full.push(COp::Spin(rng.range(0, 3000)));
+                }
+            }
             full.push(op);
         }
         let mut expected: Vec<(u64, usize, u64)> = Vec::new(); // (asker or u64::MAX for the source, port, qid)
@@ -591,6 +630,10 @@ fn gates_case(seed: u64, ex: &crate::bench::Exec, ctx: (String, String)) -> Resu
         let r = simu.step();
         rec::in_call(false);
         base += phases as u32;
+        let ov = gates.overlaps.load(std::sync::atomic::Ordering::Relaxed);
+        if ov > 0 {
+            return Err(("C05/model-polled-by-two-threads-at-once".into(), format!("round {}: {} polls of a replier's handler future began while another poll of the same model was still running ({} threads; conductor script {:?})", round, ov, ex.threads, full)));
+        }
         if let Err(e) = r {
             return Err(("C14/query-broadcast-stalled-or-failed".into(), format!("round {}: step() returned {:?} although every gate is opened by the conductor; gate levels {:?} (base {} phases {}); conductor script {:?}; connections {:?}; replier log {:?}", round, e, gates.inner.lock().unwrap().iter().map(|g| (g.0, g.1.len())).collect::<Vec<_>>(), base, phases, full, conns, log.lock().unwrap().replies)));
         }
@@ -689,7 +732,7 @@ fn gates_part(rep: &mut Report, opts: &Opts) {
             }
             let replay = format!("{} --exec {}", opts.replay_args("gates", case), ei);
             rep.evaluations += 1;
-            match gates_case(cs, ex, ("C14/hang/query-broadcast-never-completes".into(), replay.clone())) {
+            match gates_case(cs, ex, ("C14/hang/query-broadcast-never-completes".into(), replay.clone()), false) {
                 Ok(st) => {
                     rep.count("gated_queries_compared", st.queries);
                     rep.count("gated_replies_compared", st.replies);
@@ -823,6 +866,42 @@ fn concurrent_connect_case(seed: u64, threads: usize) -> Result<(u64, u64), Stri
     }
     let _ = connector.join();
     Ok((sends, overlapped))
+}
+
+/// C05, part `gates`: the gated-replier workload on the multi-threaded
+/// executor only, with polls of the repliers' handler futures widened by a
+/// busy-wait and bursts of wake-ups issued by the conductor (another model,
+/// usually on another worker) so that wake-ups land while a model is being
+/// polled and again while it is being re-polled. A poll that begins while the
+/// per-model polling flag is set is an overlap (two computations on one model).
+pub fn c05_gates(rep: &mut Report, opts: &Opts) {
+    let n = if cfg!(miri) { 3 } else { opts.n(480, 12000) };
+    let base = h2(opts.seed, 0xC05_6A7E);
+    for case in 0..n {
+        if !opts.mine(case) {
+            continue;
+        }
+        let cs = h2(base, case);
+        let mut rng = Rng::new(h2(cs, 3));
+        let threads = if cfg!(miri) { 2 + (case % 2) as usize } else { *rng.pick(&[2usize, 3, 4, 4, 8]) };
+        let ex = if case % 2 == 0 { crate::bench::Exec::mt(threads) } else { crate::bench::Exec::mt_delays(threads, rng.next(), sim::focus(sim::TASK_SITES, case, &mut rng), 128, 0) };
+        let replay = opts.replay_args("gates", case);
+        rep.evaluations += 1;
+        match gates_case(cs, &ex, ("C05/hang/driver-call-never-returns".into(), replay.clone()), true) {
+            Ok(st) => {
+                rep.count("gated_handler_runs_checked_for_overlap", st.replies);
+                rep.count("wake_ups_issued_to_blocked_or_running_repliers", st.spurious_gate);
+                rep.count(&format!("executions_{}", ex.label), 1);
+                if st.spurious_gate > 0 {
+                    rep.distinct.insert(h2(cs, st.spurious_gate));
+                }
+            }
+            Err((sig, detail)) => {
+                let sig = if sig.starts_with("C05/") { sig } else { format!("C05/via-{}", sig) };
+                rep.violation(sig, format!("[gates exec={} threads={}] {}", ex.label, ex.threads, detail), replay)
+            }
+        }
+    }
 }
 
 pub fn run(opts: &Opts) -> Report {
